@@ -188,7 +188,7 @@ def run(ctx):
         body(case, ctx.rec, cap)
     # (b) histories
     n = ctx.share(1200 if ctx.quick else 20000)
-    explore(ctx, cases(25 if ctx.quick else 60), lambda c, r: body(c, r, cap), n)
+    explore(ctx, cases(25 if ctx.quick else 200), lambda c, r: body(c, r, cap), n)
 
 
 def replay(case):
